@@ -41,3 +41,20 @@ Definition eval_rtu_syscase (k : rtu_syscase) : string :=
            (show_verdict_rtu (SR.ref_client_result_rtu req (List.concat chunks) fi))
   | _ => "REJECTED|REJECTED"
   end.
+
+(* ---- the TCP client system on raw byte chunks (Model/SystemClient.v client_system, Spec/SystemClientSpec.v
+   ref_client_result) with the same compact case format: the first request of a fresh connection (transaction id 0) ---- *)
+Definition eval_tcp_syscase (k : rtu_syscase) : string :=
+  let '(kind, s, c, chunks, fin) := k in
+  let fi := match fin with 0%N => F.FinPending | 1%N => F.FinEof | _ => F.FinErr end in
+  let chunks := map (fun x => bytes_of (fst x) (snd x)) chunks in
+  match build (mk_call kind s c (Seed 0 c)) with
+  | Ok req =>
+      let cfg := {| T.cfg_cap := 4; T.cfg_res := 1000000%N |} in
+      let rq := {| T.rq_id := 0; T.rq_kind := T.KRead; T.rq_timeout := 1000000000%N |} in
+      let st := fst (T.run cfg (T.init 1 None 20000000%N 40000000%N)
+                       [T.EvSubmit T.CEnable T.SFuture; T.EvRecv; T.EvConnect true; T.EvSubmit (T.CReq rq) T.SFuture; T.EvRecv]) in
+      both (show_verdict_rtu (SystemClient.verdict_for 0 (SystemClient.client_system cfg (fun _ => req) st chunks fi)))
+           (show_verdict_rtu (SS.ref_client_result req 0%N (List.concat chunks) fi))
+  | _ => "REJECTED|REJECTED"
+  end.
